@@ -475,6 +475,10 @@ def generate():
                    and len(re.findall(r'libc::socket\(libc::AF_UNIX,SOCK_SEQPACKET\|SOCK_FLAGS,0\)', flat)) == len(re.findall(r'libc::socket\(', flat)) >= 1
                    and 'libc::accept4(self.fd,sockaddr,sockaddr_len,SOCK_FLAGS)' in flat and 'libc::accept(' not in flat)
         out.append(f"def shape_everythingCloexec : Bool := {'true' if cloexec else 'false'}  -- socketpair, socket, accept4, recvmsg, dup, memfd")
+        # a raw descriptor gets an owner before anything can fail: connect (address first, then socket, then the owning sender,
+        # then connect), one-shot server new (owner before bind — shape_serverOwnsBeforeBind)
+        cn = 'let(sockaddr,len)=new_sockaddr_un(name.as_ptr())?;letfd=libc::socket(libc::AF_UNIX,SOCK_SEQPACKET|SOCK_FLAGS,0);iffd<0{returnErr(UnixError::last());}letsender=OsIpcSender::from_fd(fd);iflibc::connect(' in flat
+        out.append(f"def shape_connectOwnsBeforeFallible : Bool := {'true' if cn else 'false'}")
     run_unit('GenOwn', unit_own)
 
     def unit_set(out):
